@@ -1,5 +1,6 @@
 mod core;
 mod e2;
+mod e3;
 mod gast;
 mod hosts;
 mod lit;
